@@ -271,10 +271,16 @@ func ReadAlignment(f io.Reader, chnl chan FastaRecord, cErr chan error, cdone ch
 			}
 
 			description = line[1:]
+			if len(strings.Fields(description)) == 0 {
+				cErr <- errors.New("badly formatted fasta file: header line without a sequence name")
+				return
+			}
 			id = strings.Fields(description)[0]
 
 			first = false
 
+		} else if len(line) == 0 {
+			// blank lines are ignored
 		} else if string(line[0]) == ">" {
 
 			if counter == 0 {
@@ -289,6 +295,10 @@ func ReadAlignment(f io.Reader, chnl chan FastaRecord, cErr chan error, cdone ch
 			counter++
 
 			description = line[1:]
+			if len(strings.Fields(description)) == 0 {
+				cErr <- errors.New("badly formatted fasta file: header line without a sequence name")
+				return
+			}
 			id = strings.Fields(description)[0]
 			seqBuffer = ""
 
@@ -296,6 +306,12 @@ func ReadAlignment(f io.Reader, chnl chan FastaRecord, cErr chan error, cdone ch
 			seqBuffer = seqBuffer + strings.ToUpper(line)
 		}
 
+	}
+
+	// a last header with no sequence after it must not be dropped silently
+	if !first && len(seqBuffer) == 0 && counter > 0 && width != 0 {
+		cErr <- errors.New("different length sequences in input file: is this an alignment?")
+		return
 	}
 
 	if len(seqBuffer) > 0 {
@@ -363,10 +379,16 @@ func ReadEncodeAlignment(f io.Reader, hardGaps bool, chnl chan EncodedFastaRecor
 			}
 
 			description = string(line[1:])
+			if len(strings.Fields(description)) == 0 {
+				cErr <- errors.New("badly formatted fasta file: header line without a sequence name")
+				return
+			}
 			id = strings.Fields(description)[0]
 
 			first = false
 
+		} else if len(line) == 0 {
+			// blank lines are ignored
 		} else if line[0] == '>' {
 
 			if counter == 0 {
@@ -381,6 +403,10 @@ func ReadEncodeAlignment(f io.Reader, hardGaps bool, chnl chan EncodedFastaRecor
 			counter++
 
 			description = string(line[1:])
+			if len(strings.Fields(description)) == 0 {
+				cErr <- errors.New("badly formatted fasta file: header line without a sequence name")
+				return
+			}
 			id = strings.Fields(description)[0]
 			seqBuffer = make([]byte, 0)
 
@@ -396,6 +422,12 @@ func ReadEncodeAlignment(f io.Reader, hardGaps bool, chnl chan EncodedFastaRecor
 			}
 			seqBuffer = append(seqBuffer, encodedLine...)
 		}
+	}
+
+	// a last header with no sequence after it must not be dropped silently
+	if !first && len(seqBuffer) == 0 && counter > 0 && width != 0 {
+		cErr <- errors.New("different length sequences in input file: is this an alignment?")
+		return
 	}
 
 	if len(seqBuffer) > 0 {
@@ -468,10 +500,16 @@ func ReadEncodeScoreAlignment(f io.Reader, hardGaps bool, chnl chan EncodedFasta
 			}
 
 			description = string(line[1:])
+			if len(strings.Fields(description)) == 0 {
+				cErr <- errors.New("badly formatted fasta file: header line without a sequence name")
+				return
+			}
 			id = strings.Fields(description)[0]
 
 			first = false
 
+		} else if len(line) == 0 {
+			// blank lines are ignored
 		} else if line[0] == '>' {
 
 			if counter == 0 {
@@ -490,6 +528,10 @@ func ReadEncodeScoreAlignment(f io.Reader, hardGaps bool, chnl chan EncodedFasta
 			counter++
 
 			description = string(line[1:])
+			if len(strings.Fields(description)) == 0 {
+				cErr <- errors.New("badly formatted fasta file: header line without a sequence name")
+				return
+			}
 			id = strings.Fields(description)[0]
 			seqBuffer = make([]byte, 0)
 			score = 0
@@ -511,6 +553,12 @@ func ReadEncodeScoreAlignment(f io.Reader, hardGaps bool, chnl chan EncodedFasta
 			}
 			seqBuffer = append(seqBuffer, encodedLine...)
 		}
+	}
+
+	// a last header with no sequence after it must not be dropped silently
+	if !first && len(seqBuffer) == 0 && counter > 0 && width != 0 {
+		cErr <- errors.New("different length sequences in input file: is this an alignment?")
+		return
 	}
 
 	if len(seqBuffer) > 0 {
@@ -581,10 +629,15 @@ func ReadEncodeAlignmentToList(f io.Reader, hardGaps bool) ([]EncodedFastaRecord
 			}
 
 			description = string(line[1:])
+			if len(strings.Fields(description)) == 0 {
+				return []EncodedFastaRecord{}, errors.New("badly formatted fasta file: header line without a sequence name")
+			}
 			id = strings.Fields(description)[0]
 
 			first = false
 
+		} else if len(line) == 0 {
+			// blank lines are ignored
 		} else if line[0] == '>' {
 
 			if counter == 0 {
@@ -598,6 +651,9 @@ func ReadEncodeAlignmentToList(f io.Reader, hardGaps bool) ([]EncodedFastaRecord
 			counter++
 
 			description = string(line[1:])
+			if len(strings.Fields(description)) == 0 {
+				return []EncodedFastaRecord{}, errors.New("badly formatted fasta file: header line without a sequence name")
+			}
 			id = strings.Fields(description)[0]
 			seqBuffer = make([]byte, 0)
 
@@ -612,6 +668,11 @@ func ReadEncodeAlignmentToList(f io.Reader, hardGaps bool) ([]EncodedFastaRecord
 			}
 			seqBuffer = append(seqBuffer, encodedLine...)
 		}
+	}
+
+	// a last header with no sequence after it must not be dropped silently
+	if !first && len(seqBuffer) == 0 && counter > 0 && width != 0 {
+		return []EncodedFastaRecord{}, errors.New("different length sequences in input file: is this an alignment?")
 	}
 
 	if len(seqBuffer) > 0 {
